@@ -33,6 +33,8 @@ pub enum PerKey {
     PureMap,
     Map2Outer,
     BindOnValue,
+    /// a bind on the outer variable: one branch uses the per-key input, the other ignores it
+    BindOnOuter,
     IgnoresInput,
     SharedNode,
 }
@@ -136,6 +138,13 @@ fn per_key_ref(f: PerKey, k: i64, v: i64, outer: i64) -> i64 {
                 norm(outer + 1)
             } else {
                 v
+            }
+        }
+        PerKey::BindOnOuter => {
+            if outer.rem_euclid(2) == 0 {
+                norm(v + 2)
+            } else {
+                k
             }
         }
         PerKey::IgnoresInput => k * 2,
@@ -302,6 +311,23 @@ fn per_key_fn(f: PerKey, ws: &WeakState, outer: &Incr<i64>, shared: &Incr<i64>, 
                     }
                 })
             }
+            PerKey::BindOnOuter => {
+                let ws = ws.clone();
+                let c2 = c.clone();
+                outer.bind(move |o: &i64| {
+                    c.hit(k, "bindfn");
+                    if o.rem_euclid(2) == 0 {
+                        let c3 = c2.clone();
+                        iv.map(move |v| {
+                            // (a fresh node after every change of the outer variable)
+                            c3.hit(k, "node2");
+                            norm(*v + 2)
+                        })
+                    } else {
+                        ws.constant(k)
+                    }
+                })
+            }
             PerKey::IgnoresInput => ws.constant(k * 2),
             PerKey::SharedNode => shared.clone(),
         }
@@ -350,7 +376,7 @@ pub fn gen_plan(prop: &str, seed: u64) -> Plan {
         "C16" => Op::Graph {
             filter: r.chance(1, 2),
             cutoff: r.below(4) as u8,
-            f: *r.pick(&[PerKey::PureMap, PerKey::Map2Outer, PerKey::BindOnValue, PerKey::IgnoresInput, PerKey::SharedNode]),
+            f: *r.pick(&[PerKey::PureMap, PerKey::Map2Outer, PerKey::BindOnValue, PerKey::BindOnOuter, PerKey::IgnoresInput, PerKey::SharedNode]),
         },
         "C15" => match r.below(9) {
             0 => Op::Map,
